@@ -1,1 +1,242 @@
-/-! Property theorems for C07 (stub: not built yet). -/
+import UsualProofs.C07.Ops
+import UsualProofs.C07.NilWrite
+/-!
+# C07 — AA-tree is an ordered set that stays balanced (property theorems)
+
+Model: `Usual.C07` (`lean/Usual/C07/AATree.lean`, a transcription of `usual/aatree.c`).
+All statements are for an **abstract comparator** `cmp : α → α → Ordering` that is
+`Consistent` (strict total order whose `.eq` is equality); the level-rule theorems need no
+hypothesis on the comparator at all.  `run cmp ops` is the state of `struct AATree` after
+the history `ops` from `aatree_init`; `refKeys cmp ops` is the strictly ascending reference
+list maintained by sorted-insert / erase.
+-/
+set_option linter.unusedVariables false
+namespace UsualProps.C07
+open Usual.C07 Usual.C07.T UsualProofs.C07
+
+variable {α : Type}
+
+/-- the comparator used by the harness (`(k > x) - (k < x)` on integers) is consistent -/
+theorem int_compare_consistent : Consistent (compare : Int → Int → Ordering) where
+  eq_iff a b := Int.compare_eq_eq
+  gt_iff a b := by rw [Int.compare_eq_gt, Int.compare_eq_lt]
+  lt_trans a b c h1 h2 := by
+    rw [Int.compare_eq_lt] at h1 h2 ⊢; omega
+
+example : Consistent (compare : Int → Int → Ordering) := int_compare_consistent
+
+/-- a concrete history used by the non-vacuity examples: 7 inserts (one duplicate), two removes
+    (one of an absent key) -/
+def demo : List (Op Int) :=
+  [.ins 5, .ins 3, .ins 8, .ins 1, .ins 4, .ins 3, .ins 9, .rem 5, .rem 6, .find 4, .walk .preOrder]
+
+/-! ## ordered-set semantics -/
+
+/-- After every history the in-order key list of the tree *is* the reference list obtained by
+    sorted-insert / erase (and `[]` after destroy): the tree contains exactly the
+    inserted-and-not-removed keys. -/
+theorem set_semantics (cmp : α → α → Ordering) (hc : Consistent cmp) (ops : List (Op α)) :
+    toList (run cmp ops).root = refKeys cmp ops ∧
+    walkSub (run cmp ops).root .inOrder = refKeys cmp ops := by
+  rw [walk_inOrder]; exact ⟨toList_run hc ops, toList_run hc ops⟩
+
+example : toList (run compare demo).root = [1, 3, 4, 8, 9] ∧ refKeys compare demo = [1, 3, 4, 8, 9] := by
+  decide
+
+/-- Membership after one more operation, spelled out: insert adds exactly its key, remove
+    deletes exactly its key, destroy empties, everything else changes nothing. -/
+theorem contents_step (cmp : α → α → Ordering) (hc : Consistent cmp) (ops : List (Op α))
+    (o : Op α) (y : α) :
+    y ∈ toList (run cmp (ops ++ [o])).root ↔
+      (match o with
+       | .ins k => y = k ∨ y ∈ toList (run cmp ops).root
+       | .rem k => y ≠ k ∧ y ∈ toList (run cmp ops).root
+       | .destroy => False
+       | _ => y ∈ toList (run cmp ops).root) := by
+  have hi := inv_run hc ops
+  have hstep : toList (run cmp (ops ++ [o])).root = refStep cmp (toList (run cmp ops).root) o := by
+    rw [run_eq, runFrom_append, ← run_eq]
+    exact toList_step hc _ o hi
+  rw [hstep]
+  cases o with
+  | ins k => exact mem_specInsert hc k _ y
+  | rem k => exact mem_specErase hc k _ hi.sorted y
+  | find k => rfl
+  | walk w => rfl
+  | destroy => simp [refStep]
+  | count => rfl
+
+example : (4 : Int) ∈ toList (run compare (demo ++ [.rem 9])).root ∧
+    (9 : Int) ∉ toList (run compare (demo ++ [.rem 9])).root := by decide
+
+/-- `aatree_search` finds exactly the keys that are in the tree, and returns that node. -/
+theorem search_correct (cmp : α → α → Ordering) (hc : Consistent cmp) (ops : List (Op α)) (k : α) :
+    (k ∈ refKeys cmp ops → search cmp (run cmp ops).root k = some k) ∧
+    (k ∉ refKeys cmp ops → search cmp (run cmp ops).root k = none) := by
+  rw [← toList_run hc ops]
+  exact search_spec hc _ k (inv_run hc ops).sorted
+
+example : search compare (run compare demo).root 4 = some 4 ∧
+    search compare (run compare demo).root 5 = none := by decide
+
+/-- `tree->count` is the number of nodes, which is the number of keys of the reference. -/
+theorem count_eq_size (cmp : α → α → Ordering) (hc : Consistent cmp) (ops : List (Op α)) :
+    (run cmp ops).count = (size (run cmp ops).root : Int) ∧
+    (run cmp ops).count = ((refKeys cmp ops).length : Int) := by
+  have h := (inv_run hc ops).count
+  refine ⟨h, ?_⟩
+  rw [h, size_eq_length, toList_run hc ops]
+
+example : (run compare demo).count = 5 := by decide
+
+/-- An in-order walk yields the keys in strictly ascending order (so without repetition). -/
+theorem inorder_strictly_ascending (cmp : α → α → Ordering) (hc : Consistent cmp) (ops : List (Op α)) :
+    (walkSub (run cmp ops).root .inOrder).Pairwise (fun a b => cmp a b = .lt) ∧
+    (walkSub (run cmp ops).root .inOrder).Nodup := by
+  rw [walk_inOrder]
+  exact ⟨(inv_run hc ops).sorted, sorted_nodup hc _ (inv_run hc ops).sorted⟩
+
+example : walkSub (run compare demo).root .inOrder = [1, 3, 4, 8, 9] := by decide
+
+/-- Pre-order and post-order walks visit the same nodes as the in-order walk, each once
+    (for *every* tree, reachable or not). -/
+theorem pre_post_perm_inorder (t : T α) :
+    List.Perm (walkSub t .preOrder) (walkSub t .inOrder) ∧
+    List.Perm (walkSub t .postOrder) (walkSub t .inOrder) := by
+  rw [walk_inOrder]; exact ⟨walk_preOrder_perm t, walk_postOrder_perm t⟩
+
+example : walkSub (run compare demo).root .preOrder = [3, 1, 8, 4, 9] ∧
+    walkSub (run compare demo).root .postOrder = [1, 4, 9, 8, 3] := by decide
+
+/-! ## no-op operations -/
+
+/-- Inserting a key that is present changes nothing: same tree (shape and levels), same
+    count, same release log; the caller's node is not linked. -/
+theorem insert_present_noop (cmp : α → α → Ordering) (hc : Consistent cmp) (ops : List (Op α)) (k : α)
+    (hm : k ∈ toList (run cmp ops).root) :
+    step cmp (run cmp ops) (.ins k) = (run cmp ops, .linked false) := by
+  have hi := inv_run hc ops
+  have h1 : ins cmp (run cmp ops).root k = (run cmp ops).root := ins_of_mem hc _ k hi.sorted hi.aa hm
+  have h2 : search cmp (run cmp ops).root k = some k := (search_spec hc _ k hi.sorted).1 hm
+  simp only [step, insertSub_fst, insertSub_snd, h1, h2]
+  rfl
+
+example : (3 : Int) ∈ toList (run compare demo).root ∧
+    step compare (run compare demo) (.ins 3) = (run compare demo, .linked false) :=
+  ⟨by decide, insert_present_noop compare int_compare_consistent demo 3 (by decide)⟩
+
+/-- Removing a key that is absent changes nothing: same tree, same count, no callback. -/
+theorem remove_absent_noop (cmp : α → α → Ordering) (hc : Consistent cmp) (ops : List (Op α)) (k : α)
+    (hm : k ∉ toList (run cmp ops).root) :
+    step cmp (run cmp ops) (.rem k) = (run cmp ops, .unit) := by
+  have hi := inv_run hc ops
+  have h1 : del cmp (run cmp ops).root k = (run cmp ops).root := del_of_not_mem hc _ k hi.sorted hi.aa hm
+  have h2 : search cmp (run cmp ops).root k = none := (search_spec hc _ k hi.sorted).2 hm
+  simp only [step, removeSub_fst, removeSub_snd, h1, h2]
+
+example : (6 : Int) ∉ toList (run compare demo).root ∧
+    step compare (run compare demo) (.rem 6) = (run compare demo, .unit) :=
+  ⟨by decide, remove_absent_noop compare int_compare_consistent demo 6 (by decide)⟩
+
+/-! ## balance -/
+
+/-- `insert_sub` preserves the AA level rules — for any comparator whatsoever. -/
+theorem aa_preserved_insert (cmp : α → α → Ordering) (t : T α) (k : α) (h : aa t = true) :
+    aa (ins cmp t k) = true ∧ (insertSub cmp t k 0).1 = ins cmp t k :=
+  ⟨(aa_ins cmp t k h).1, insertSub_fst cmp t k 0⟩
+
+example : aa (run compare demo).root = true ∧ aa (ins compare (run compare demo).root 2) = true := by decide
+
+/-- `remove_sub` (with `drop_this_node`, `steal_leftmost`, `rebalance_on_remove`) preserves the
+    AA level rules — for any comparator whatsoever. -/
+theorem aa_preserved_remove (cmp : α → α → Ordering) (t : T α) (k : α) (h : aa t = true) :
+    aa (del cmp t k) = true ∧ ∀ e, (removeSub cmp t k e).1 = del cmp t k :=
+  ⟨aa_del cmp t k h, removeSub_fst cmp t k⟩
+
+example : aa (del compare (run compare demo).root 3) = true ∧
+    toList (del compare (run compare demo).root 3) = [1, 4, 8, 9] := by decide
+
+/-- After every operation of every history the AA level rules hold. -/
+theorem aa_reachable (cmp : α → α → Ordering) (hc : Consistent cmp) (ops : List (Op α)) :
+    aa (run cmp ops).root = true :=
+  (inv_run hc ops).aa
+
+example : aa (run compare demo).root = true := aa_reachable compare int_compare_consistent demo
+
+/-- The level rules alone bound the height. -/
+theorem height_le_of_aa (t : T α) (h : aa t = true) : height t ≤ 2 * Nat.log2 (size t + 1) :=
+  height_le_two_log t h
+
+example : height (run compare demo).root = 3 ∧ size (run compare demo).root = 5 := by decide
+
+/-- After every operation the height is at most `2·log2(n+1)`, `n` = number of keys = count. -/
+theorem height_bound (cmp : α → α → Ordering) (hc : Consistent cmp) (ops : List (Op α)) :
+    height (run cmp ops).root ≤ 2 * Nat.log2 ((refKeys cmp ops).length + 1) ∧
+    height (run cmp ops).root ≤ 2 * Nat.log2 ((run cmp ops).count.toNat + 1) := by
+  have h := height_le_two_log _ (inv_run hc ops).aa
+  have hc' := (inv_run hc ops).count
+  rw [size_eq_length, toList_run hc ops] at h
+  refine ⟨h, ?_⟩
+  rw [hc', size_eq_length, toList_run hc ops]
+  simpa using h
+
+example : height (run compare demo).root ≤ 2 * Nat.log2 ((refKeys compare demo).length + 1) :=
+  (height_bound compare int_compare_consistent demo).1
+
+/-! ## release callback -/
+
+/-- What one operation adds to the log of release callbacks: remove of a present key → exactly
+    that key, once; remove of an absent key, insert, search, walk, count → nothing; destroy →
+    the post-order walk of the tree, which is a permutation of its keys (each node once). -/
+theorem release_log_step (cmp : α → α → Ordering) (hc : Consistent cmp) (ops : List (Op α)) (o : Op α) :
+    (step cmp (run cmp ops) o).1.log = (run cmp ops).log ++
+      (match o with
+       | .rem k => if present cmp k (refKeys cmp ops) then [k] else []
+       | .destroy => walkSub (run cmp ops).root .postOrder
+       | _ => []) ∧
+    List.Perm (walkSub (run cmp ops).root .postOrder) (refKeys cmp ops) ∧
+    (∀ k, present cmp k (refKeys cmp ops) = true ↔ k ∈ refKeys cmp ops) := by
+  refine ⟨?_, ?_, fun k => present_iff hc k _⟩
+  · rw [← toList_run hc ops]; exact log_step hc _ o (inv_run hc ops)
+  · rw [← toList_run hc ops]; exact walk_postOrder_perm _
+
+example : (step compare (run compare demo) (.rem 4)).1.log = [5, 4] ∧
+    (step compare (run compare demo) (.rem 6)).1.log = [5] ∧
+    (step compare (run compare demo) .destroy).1.log = [5, 1, 4, 9, 8, 3] := by decide
+
+/-- Exactly once, globally: the keys of all nodes ever linked into the tree are, as a
+    multiset, the released ones plus the ones still in the tree; the latter are distinct. So
+    every linked node is released at most once, exactly once if it was removed or destroyed,
+    and nothing else is ever released. -/
+theorem release_exactly_once (cmp : α → α → Ordering) (hc : Consistent cmp) (ops : List (Op α)) :
+    List.Perm ((run cmp ops).log ++ toList (run cmp ops).root) (linkedKeys cmp ops) ∧
+    (toList (run cmp ops).root).Nodup := by
+  refine ⟨?_, sorted_nodup hc _ (inv_run hc ops).sorted⟩
+  have := release_runFrom hc init ops (inv_init cmp)
+  simpa [run_eq, linkedKeys, init, toList] using this
+
+example : (run compare (demo ++ [.destroy, .ins 5])).log = [5, 1, 4, 9, 8, 3] ∧
+    linkedKeys compare (demo ++ [.destroy, .ins 5]) = [5, 3, 8, 1, 4, 9, 5] := by decide
+
+/-! ## the shared NIL node -/
+
+/-- No operation of any history stores through the shared `const` NIL sentinel: every
+    assignment in `skew`, `split`, `rebalance_on_insert`, `rebalance_on_remove` (in particular
+    `current->right->right = …`), `steal_leftmost` and `drop_this_node` targets a real node. -/
+theorem nil_never_written (cmp : α → α → Ordering) (hc : Consistent cmp) (ops : List (Op α)) (o : Op α) :
+    opNilWrite cmp (run cmp ops).root o = false := by
+  have ha := (inv_run hc ops).aa
+  cases o with
+  | ins k => exact ins_noNilWrite cmp _ k ha
+  | rem k => exact del_noNilWrite cmp _ k ha
+  | find k => rfl
+  | walk w => rfl
+  | destroy => rfl
+  | count => rfl
+
+/-- the predicate is not trivially false: a level-2 node whose right child vanished and whose
+    left child does not sit one level below would make `rebalance_on_remove` store into NIL -/
+example : rebalNilWrite (node (nil : T Int) 1 2 nil) = true ∧
+    opNilWrite compare (run compare demo).root (.rem 3) = false := by decide
+
+end UsualProps.C07
